@@ -68,6 +68,8 @@ def grids(tier, seed):
         for reps in (1, 2, 3):
             out.append(("FullyFactorized", dict(num_variables=n, num_repetitions=reps)))
     shapes = [(c, h, w) for c in (1, 2) for h in range(1, 4 if q else 6) for w in range(1, 4 if q else 6)]
+    # elongated images: the halved sizes of the two axes differ by two or more at some level
+    shapes += [(1, 1, 5), (1, 6, 2), (1, 2, 7)] if q else [(1, 1, 5), (1, 1, 8), (1, 2, 6), (1, 6, 3), (2, 4, 7), (1, 5, 2), (1, 9, 5), (1, 8, 16), (1, 3, 11), (2, 7, 1)]
     for sh in shapes:
         for sp in (2, 4):
             out.append(("QuadTree", dict(shape=sh, num_patch_splits=sp)))
@@ -223,12 +225,23 @@ def model_structured(rg) -> bool:
 
 
 def canonical(rg):
-    """Canonical form up to node identity: multiset of region scopes, multiset of (region scope,
-    sorted child scopes) per partition, root scopes."""
-    regions = sorted(tuple(sorted(int(v) for v in r.scope)) for r in rg.region_nodes)
-    parts = sorted((tuple(sorted(int(v) for v in p.scope)), tuple(sorted(tuple(sorted(int(v) for v in r.scope)) for r in rg.node_inputs(p)))) for p in rg.partition_nodes)
-    roots = sorted(tuple(sorted(int(v) for v in r.scope)) for r in rg.outputs)
-    return regions, parts, roots
+    """Canonical form up to node identity (graph isomorphism respecting scopes): every region node is
+    described by the recursive unfolding below it -- (scope, sorted unfoldings of its partitions), a
+    partition by (scope, sorted unfoldings of its child regions) -- so distinct region nodes that share
+    a scope (one per repetition) are told apart by what hangs below them.  The form is the multiset of
+    unfoldings of all region nodes (dangling ones included), of the roots, and the node counts."""
+    memo = {}
+
+    def canon(node):
+        if id(node) not in memo:
+            sc_ = tuple(sorted(int(v) for v in node.scope))
+            memo[id(node)] = (sc_, tuple(sorted(canon(ch) for ch in rg.node_inputs(node))))
+        return memo[id(node)]
+
+    regions = sorted(canon(r) for r in rg.region_nodes)
+    roots = sorted(canon(r) for r in rg.outputs)
+    fanout = sorted((tuple(sorted(int(v) for v in n_.scope)), len(rg.node_outputs(n_))) for n_ in rg.nodes)
+    return regions, roots, len(list(rg.region_nodes)), len(list(rg.partition_nodes)), fanout
 
 
 def build_modes(rng):
